@@ -1235,7 +1235,9 @@ int EGLPNUM_TYPENAME_ILLwrite_mps (
 		EGLPNUM_TYPENAME_ILLprint_report (lp, "RANGES\n");
 		for (i = 0; i < lp->nrows; i++)
 		{
-			if ((lprows->rowcnt[i] != 0) && EGLPNUM_TYPENAME_EGlpNumIsNeqqZero (lp->rangeval[i]))
+			/* an R row keeps its RANGES entry even when the range is 0 (rhs <= row <= rhs) */
+			if ((lprows->rowcnt[i] != 0) &&
+					(lp->sense[i] == 'R' || EGLPNUM_TYPENAME_EGlpNumIsNeqqZero (lp->rangeval[i])))
 			{
 				str = EGLPNUM_TYPENAME_EGlpNumGetStr(lp->rangeval[i]);
 				EGLPNUM_TYPENAME_ILLprint_report (lp, " RANGE    %s    %s\n", rownames[i], str);
